@@ -56,6 +56,7 @@ def structures(tier):
         sts.append({'kind': 'listing', 'q': q})
     sts.append({'kind': 'decode'})
     sts.append({'kind': 'decode-sequence'})
+    sts.append({'kind': 'decode-same-name'})
     sts.append({'kind': 'text-representatives'})
     return sts
 
@@ -83,7 +84,29 @@ def _chars(ctx, name, n, cls):
 
 def run(ctx, st):
     return {'text': run_text, 'listing': run_listing, 'decode': run_decode, 'decode-sequence': run_decode_sequence,
-            'text-representatives': run_representatives}[st['kind']](ctx, st)
+            'text-representatives': run_representatives, 'decode-same-name': run_same_name}[st['kind']](ctx, st)
+
+
+def run_same_name(ctx, st):
+    """the supplied table gives the decodable name to two different ids: events under either id are decoded"""
+    k0, k1 = ctx.int('k0', 32), ctx.int('k1', 32)
+    ctx.assume(And((k0 & 3) == 0, (k1 & 3) == 0, k0 != k1))
+    if ctx.symbolic:
+        t = SymMap(name='codes')
+        t._set(k0, 'BSC_getpid')
+        t._set(k1, 'BSC_getpid')
+    else:
+        t = {k0: 'BSC_getpid', k1: 'BSC_getpid'}
+    recs = [K.pack_rec(1001, [1, 2, 3, 4], 0x1d3, k0 | 1), K.pack_rec(1002, [0, 0x41, 0, 0], 0x1d3, k0 | 2),
+            K.pack_rec(1003, [1, 2, 3, 4], 0x1d3, k1 | 1), K.pack_rec(1004, [0, 0x42, 0, 0], 0x1d3, k1 | 2)]
+    try:
+        out = list(_parser(ctx).traces(make_stream(K.v2_file([], 0, recs)), t))
+    except Exception as ex:     # noqa
+        ctx.check('C19/same-name/no-error', False, '%s: %s' % (type(ex).__name__, ex)); ctx.reach(); return
+    ctx.check('C19/same-name/both-ids-decoded', len(out) == 2 and all(type(x).__name__ == 'BscGetpid' for x in out),
+              '%d traces for two windows whose ids both map to the decodable name' % len(out))
+    ctx.reach()
+
 
 
 REPRESENTATIVES = [
